@@ -430,6 +430,9 @@ Prop_Replay ==
        ChkA(ReplayNoEffectA(st, st', hv, Ev.w, Ev.ev, Ev.sl, "ok",
                             IF Ev.ev = "receive" THEN AcctOf(st, Ev.w, Ev.dest) ELSE ""), "ReplayNoEffect")]_vars
 Prop_NoReverted == [][Stepped => ChkA(NoRevertedSelected(st, st', Ev.ev = "finalize"), "NeverSelectsReverted")]_vars
+Prop_FinalizeOwn ==
+  [][Stepped /\ Ev.ev = "finalize" /\ Ev.w = "w1" /\ Ev.stage = "S2" /\ "mok" \in DOMAIN Ev /\ Ev.mok =>
+       ChkA(FinalizeOwnReservation(st', "w1", Ev.sl), "FinalizeOwnReservation")]_vars
 Prop_SelectAvoidsReserved ==
   [][Stepped /\ Ev.ev \in {"init_send", "process_invoice"} =>
        ChkA(SelectAvoidsReserved(st, st', Ev.w, Ev.sl), "SelectAvoidsReserved")]_vars
